@@ -357,8 +357,8 @@ class Fn:
             return ('this',)
         if c == 'DeclRefExpr':
             dk = nd.get('dk')
-            if dk == 'static_local' and not inline:
-                # a constexpr static local is a named compile-time constant: always looked through
+            if (dk == 'static_local' or (dk == 'local' and self.defs.get(nd['d'], {}).get('constexpr'))) and not inline:
+                # a constexpr (static) local is a named compile-time constant: always looked through
                 init = self.single_def(nd['d'])
                 if init:
                     return self.term(init, inline, depth + 1)
@@ -393,7 +393,13 @@ class Fn:
             return ('ref', nd['n'])
         if c == 'MemberExpr':
             if nd.get('dk') == 'field':
-                return ('field', nd['n'], T(nd['ch'][0]))
+                base = T(nd['ch'][0])
+                if nd['n'] in ('first', 'second'):
+                    # .first / .second of an aggregate that is visible as a term (the pair a helper returns): its element
+                    el = _aggregate_elems(base)
+                    if el is not None and len(el) == 2:
+                        return el[0] if nd['n'] == 'first' else el[1]
+                return ('field', nd['n'], base)
             if nd.get('dk') == 'static_member':
                 return ('static', nd['n'], int(nd['v']) if 'v' in nd else None)
             return ('member', nd['n'], T(nd['ch'][0]))
@@ -435,6 +441,17 @@ class Fn:
         if c == 'UnaryOperator':
             op = nd['op']
             if op == '*':
+                # `*this` inside a helper inlined from a call on another object: `this` was replaced by that object (an lvalue,
+                # not a pointer), so `*this` is the object itself
+                j = nd['ch'][0]
+                for _ in range(4):
+                    nj = self.n(j)
+                    if nj.get('this_of_inlined'):
+                        return T(nj['ch'][0])
+                    if nj['c'] in ('ParenExpr', 'ImplicitCastExpr') and nj['ch']:
+                        j = nj['ch'][0]
+                    else:
+                        break
                 return ('deref', T(nd['ch'][0]))
             if nd.get('postfix'):
                 op = 'post' + op
